@@ -91,6 +91,9 @@ func runC08(s *core.Sim, tier string) RunInfo {
 		return info()
 	}
 	injectFaults := s.Tape.Coin("fault-mode", 1, 3)
+	if !injectFaults {
+		w.lowerParallelThreshold()
+	}
 	rounds := 1 + s.Tape.Draw("rounds", 4)
 	for r := 0; r < rounds && !s.Failed(); r++ {
 		if m.Empty() {
